@@ -412,8 +412,9 @@ PostHoc ==
   /\ pc = "posthoc"
   /\ IF di > Len(hist.posthoc)
        THEN pc' = "done" /\ UNCHANGED <<lst, fo, cl, di, res>>
-       ELSE IF hist.posthoc[di].d.d \in {"require_partial", "ensure_partial"}
-         THEN \* icontract.require(..)(functools.partial(K.name)): the partial object gets a checker of its own; nothing
+       ELSE IF hist.posthoc[di].d.d \in {"require_partial", "ensure_partial", "require_raw", "ensure_raw"}
+         THEN \* icontract.require(..)(functools.partial(K.name)) / icontract.require(..)(<the undecorated function at the
+              \* bottom of K.name's decorator stack>): the new callable gets a checker of its own; nothing
               \* that exists is touched
               /\ di' = di + 1 /\ pc' = "posthoc" /\ UNCHANGED <<lst, fo, cl, res>>
        ELSE IF hist.posthoc[di].d.d = "invariant"
